@@ -13,8 +13,12 @@ Example ex_json_roundtrip : json_loads (json_dumps ex_v) = Some ex_v.
 Proof. vm_compute. reflexivity. Qed.
 Example ex_b64_roundtrip :
   b64dec (b64enc [0; 255; 16; 7]%N) = Some [0; 255; 16; 7]%N /\ b64dec (b64enc [1; 2]%N) = Some [1; 2]%N
-  /\ b64dec (b64enc [250; 251; 252]%N) = Some [250; 251; 252]%N.
-Proof. vm_compute. auto. Qed.
+  /\ b64dec (b64enc [250; 251; 252]%N) = Some [250; 251; 252]%N
+  (* leniency: '!' inside, '=' appended, '+' for '-' decode to the same bytes; one data character too many does not *)
+  /\ b64dec ([65; 33; 33]%N ++ b64enc [250; 251; 252]%N) = None
+  /\ b64dec (b64enc [250; 251; 252]%N ++ [61; 61; 61; 61]%N) = Some [250; 251; 252]%N
+  /\ b64dec ([33; 10; 32]%N ++ b64enc [1; 2]%N ++ [61; 61; 33; 65; 65]%N) = Some [1; 2]%N.
+Proof. vm_compute. repeat split; reflexivity. Qed.
 
 (* ------------------------------------------------------------------ base64 *)
 Definition is_byte (b : N) : Prop := (b < 256)%N.
@@ -28,26 +32,72 @@ Proof.
     try (f_equal; lia); try lia.
 Qed.
 
-Lemma b64_round : forall n x, length x <= n -> Forall is_byte x -> b64dec (b64enc x) = Some x.
+Lemma b64c_small n : (b64c n <? 256)%N = true /\ (b64c n =? 61)%N = false.
+Proof.
+  unfold b64c. repeat match goal with |- context[if ?b then _ else _] => destruct b eqn:? end; split; lia.
+Qed.
+
+(* one data character *)
+Lemma go_data s r qp left pads : (s < 64)%N ->
+  b64go (b64c s :: r) qp left pads =
+  if (qp =? 0)%N then b64go r 1%N s 0%N
+  else if (qp =? 1)%N then ocons (left * 4 + s / 16)%N (b64go r 2%N (s mod 16)%N 0%N)
+  else if (qp =? 2)%N then ocons (left * 16 + s / 4)%N (b64go r 3%N (s mod 4)%N 0%N)
+  else ocons (left * 64 + s)%N (b64go r 0%N 0%N 0%N).
+Proof.
+  intros H. cbn [b64go]. destruct (b64c_small s) as [_ E]. rewrite E, (b64v_b64c s H). reflexivity.
+Qed.
+
+Lemma b64pad_4 m : b64pad (S (S (S (S m)))) = b64pad m.
+Proof.
+  unfold b64pad. replace (S (S (S (S m)))) with (m + 1 * 4) by lia. rewrite Nat.mod_add by lia. reflexivity.
+Qed.
+
+Lemma b64go_round : forall n x, length x <= n -> Forall is_byte x ->
+  b64go (b64enc x ++ b64pad (length (b64enc x))) 0%N 0%N 0%N = Some x.
 Proof.
   unfold is_byte.
   induction n as [|n IH]; intros x L F.
   - destruct x; [reflexivity|cbn in L; lia].
   - destruct x as [|a [|b [|c r]]]; [reflexivity| | |].
-    + inversion F as [|? ? Ha _]; subst. cbn [b64enc b64dec].
-      rewrite !b64v_b64c by lia. f_equal. f_equal. lia.
-    + inversion F as [|? ? Ha F1]; subst. inversion F1 as [|? ? Hb _]; subst. cbn [b64enc b64dec].
-      rewrite !b64v_b64c by lia. f_equal. f_equal; [lia|f_equal; lia].
+    + inversion F as [|? ? Ha _]; subst. cbn [b64enc app length]. change (b64pad 2) with [61; 61]%N. cbn [app].
+      rewrite !go_data by lia. cbn [N.eqb Pos.eqb b64go N.leb N.add N.compare Pos.compare Pos.compare_cont Pos.add Pos.succ ocons].
+      f_equal. f_equal. lia.
+    + inversion F as [|? ? Ha F1]; subst. inversion F1 as [|? ? Hb _]; subst.
+      cbn [b64enc app length]. change (b64pad 3) with [61]%N. cbn [app].
+      rewrite !go_data by lia. cbn [N.eqb Pos.eqb b64go N.leb N.add N.compare Pos.compare Pos.compare_cont Pos.add Pos.succ ocons].
+      f_equal. f_equal; [lia|f_equal; lia].
     + inversion F as [|? ? Ha F1]; subst. inversion F1 as [|? ? Hb F2]; subst. inversion F2 as [|? ? Hc F3]; subst.
-      cbn [b64enc app b64dec].
-      rewrite !b64v_b64c by lia.
+      cbn [b64enc app length]. rewrite b64pad_4.
+      rewrite !go_data by lia. cbn [N.eqb Pos.eqb].
       assert (Lr : length r <= n) by (cbn [length] in L; lia).
-      rewrite (IH r Lr F3).
+      rewrite (IH r Lr F3). cbn [ocons].
       f_equal. f_equal; [lia|f_equal; [lia|f_equal; lia]].
 Qed.
 
+Lemma b64enc_latin1 : forall n x, length x <= n -> existsb (fun c => (256 <=? c)%N) (b64enc x) = false.
+Proof.
+  induction n as [|n IH]; intros x L.
+  - destruct x; [reflexivity|cbn in L; lia].
+  - destruct x as [|a [|b [|c r]]]; [reflexivity| | |]; cbn [b64enc app existsb];
+      repeat match goal with |- context [(256 <=? b64c ?v)%N] =>
+               let H := fresh in destruct (b64c_small v) as [H _];
+               replace (256 <=? b64c v)%N with false by lia; clear H end;
+      cbn [orb]; try reflexivity.
+    apply IH. cbn [length] in L. lia.
+Qed.
+
 Lemma b64dec_b64enc x : Forall is_byte x -> b64dec (b64enc x) = Some x.
-Proof. apply (b64_round (length x)). apply le_n. Qed.
+Proof.
+  intros F. unfold b64dec. rewrite (b64enc_latin1 (length x) x (le_n _)).
+  apply (b64go_round (length x)); [apply le_n|exact F].
+Qed.
+
+(* the decoder is lenient: characters outside both alphabets are discarded wherever they stand, so an
+   altered text can decode to the very same bytes *)
+Lemma b64go_skip c r qp left pads : (c =? 61)%N = false -> b64v c = None ->
+  b64go (c :: r) qp left pads = b64go r qp left pads.
+Proof. intros A B. cbn [b64go]. rewrite A, B. reflexivity. Qed.
 
 (* ------------------------------------------------------------------ JSON strings *)
 Lemma hexv_hexd x : (x < 16)%N -> hexv (hexd x) = Some x.
